@@ -243,6 +243,8 @@ class Ref:
 
     # variables
     def get(self, name):
+        if name in self.uncertain:
+            self.ambiguous = True   # reading a variable whose value relaxation 5.5(b) left open
         for s in reversed(self.scopes):
             if name in s:
                 return s[name]
